@@ -62,11 +62,11 @@ Lemma seteq_trans a b c : seteq a b -> seteq b c -> seteq a c.
 Proof. intros H1 H2 v. rewrite (H1 v). apply H2. Qed.
 
 Lemma aext_refl a : aext a a.
-Proof. repeat split; tauto. Qed.
+Proof. split; [|split]; apply seteq_refl. Qed.
 Lemma aext_sym a b : aext a b -> aext b a.
-Proof. intros (H1 & H2 & H3). repeat split; apply seteq_sym; assumption. Qed.
+Proof. intros (H1 & H2 & H3). split; [|split]; apply seteq_sym; assumption. Qed.
 Lemma aext_trans a b c : aext a b -> aext b c -> aext a c.
-Proof. intros (H1 & H2 & H3) (G1 & G2 & G3). repeat split; eapply seteq_trans; eassumption. Qed.
+Proof. intros (H1 & H2 & H3) (G1 & G2 & G3). split; [|split]; eapply seteq_trans; eassumption. Qed.
 Lemma aext_sg0 a b : aext a b -> aext (sg0 a) (sg0 b).
 Proof. intros (H1 & H2 & H3). unfold sg0, aext, ev1, ev2, ev3 in *. simpl. auto. Qed.
 Lemma sg0_invol a : sg0 (sg0 a) = a.
